@@ -18,6 +18,7 @@ type R extending Named {
     property comp_cnt := count(.ms);
     multi link ms_lp -> T { lp: str };
     link tu -> T1 | U;
+    multi link items -> T2 | U1 | V;
 }
 type T extending Named {
     link u -> U;
@@ -45,7 +46,12 @@ PARENTS = {'Named': [], 'R': ['Named'], 'T': ['Named'], 'T1': ['T'], 'T2': ['T']
 ABSTRACT = {'Named'}
 
 
+UNION_TARGETS = {'TU': ['T1', 'U'], 'ITEM': ['T2', 'U1', 'V']}
+
+
 def ancestors(t):
+    if t in UNION_TARGETS:
+        return []
     out = []
     for p in PARENTS[t]:
         if p not in out:
@@ -57,6 +63,8 @@ def ancestors(t):
 
 
 def descendants(t):
+    if t in UNION_TARGETS:
+        return list(UNION_TARGETS[t])
     return [x for x in TYPES if t in ancestors(x)]
 
 
@@ -64,13 +72,15 @@ def descendants(t):
 OWN_LINKS = {
     'Named': {},
     'R': {'ms': ('T', 'multi'), 's': ('T', 'single'), 'us': ('U', 'multi'), 'self': ('R', 'single'),
-          'comp_s': ('T', 'single'), 'comp_ts': ('T', 'multi'), 'ms_lp': ('T', 'multi')},
+          'comp_s': ('T', 'single'), 'comp_ts': ('T', 'multi'), 'ms_lp': ('T', 'multi'),
+          'tu': ('TU', 'single'), 'items': ('ITEM', 'multi')},
     'T': {'u': ('U', 'single'), 'rs': ('R', 'multi'), 'rback': ('R', 'multi')},
     'T1': {'t1u': ('U', 'single')},
     'T2': {}, 'T12': {}, 'U': {'back': ('T', 'single')}, 'U1': {},
     'V': {'vt': ('T', 'single')}, 'W': {'rq': ('T', 'single')},
 }
-STORED_LINKS = {('R', 'ms'), ('R', 's'), ('R', 'us'), ('R', 'self'), ('R', 'ms_lp'), ('T', 'u'), ('T', 'rs'),
+STORED_LINKS = {('R', 'ms'), ('R', 's'), ('R', 'us'), ('R', 'self'), ('R', 'ms_lp'), ('R', 'tu'), ('R', 'items'),
+                ('T', 'u'), ('T', 'rs'),
                 ('T1', 't1u'), ('U', 'back'), ('V', 'vt'), ('W', 'rq')}
 OWN_PROPS = {'Named': ['name', 'flag', 'num'], 'R': ['comp_cnt'], 'T': [], 'T1': ['extra1'], 'T2': ['extra2'],
              'T12': ['extra12'], 'U': [], 'U1': ['extra_u'], 'V': ['name'], 'W': ['name']}
@@ -78,6 +88,8 @@ STR_PROPS = {'name', 'extra1', 'extra2', 'extra12', 'extra_u'}
 
 
 def links_of(t):
+    if t in UNION_TARGETS:
+        return {}
     out = {}
     for a in reversed([t] + ancestors(t)):
         out.update(OWN_LINKS[a])
@@ -85,6 +97,8 @@ def links_of(t):
 
 
 def props_of(t):
+    if t in UNION_TARGETS:
+        return ['name']
     out = []
     for a in [t] + ancestors(t):
         for p in OWN_PROPS[a]:
@@ -96,10 +110,12 @@ def props_of(t):
 def backlinks_of(t):
     """(link, source type) pairs whose stored link can point at an object of type t"""
     out = []
+    if t in UNION_TARGETS:
+        return out
     mine = set([t] + ancestors(t))
     for (src, l) in sorted(STORED_LINKS):
         tgt = OWN_LINKS[src][l][0]
-        if tgt in mine:
+        if tgt in mine or (tgt in UNION_TARGETS and any(m in mine for m in UNION_TARGETS[tgt])):
             out.append((l, src))
     return out
 
@@ -127,9 +143,20 @@ def atom_text(rnd, subj, n, allow_std=False):
         forms.append('mlink')
     if backlinks_of(subj):
         forms.append('back')
-    if allow_std:
+    forms += ['globalobj', 'aliasobj']
+    if allow_std == 'typeof':
+        forms = ['typeof']
+    elif allow_std:
         forms += ['stdobj'] * 4
     f = rnd.choice(forms)
+    if f == 'typeof':
+        return f".name = '{tok}' and (.name is typeof .name)", tok
+    if f == 'globalobj':
+        gl = rnd.choice(['g_t', 'g_ts'])
+        return f"exists (select (global default::{gl}) filter .name = '{tok}')", tok
+    if f == 'aliasobj':
+        al = rnd.choice(['AT', 'AR'])
+        return f"exists (select default::{al} filter .name = '{tok}')", tok
     if f == 'name':
         return f".name = '{tok}'", tok
     if f == 'num':
@@ -179,18 +206,24 @@ def gen_cond(rnd, subj, counter, markers, allow_std=False):
     return 'false', ['k', False]
 
 
-PLACEMENT_PATTERNS = ['type', 'ancestor', 'descendant', 'linktarget', 'diamond', 'mixed', 'mixed', 'mixed',
-                      'writeonly', 'leafonly']
+PLACEMENT_PATTERNS = ['type', 'ancestor', 'descendant_extra', 'linktarget', 'diamond', 'mixed', 'descendant',
+                      'mixed', 'uniontargets', 'mixed', 'writeonly', 'leafonly']
 
 
 def gen_placement(rnd, pid, pattern=None, stdobj=False):
     pattern = pattern or rnd.choice(PLACEMENT_PATTERNS)
+    if pattern == 'typeof':
+        stdobj = 'typeof'
     if pattern == 'type':
         where = ['T']
     elif pattern == 'ancestor':
         where = ['Named']
     elif pattern == 'descendant':
         where = [rnd.choice(['T1', 'T2', 'T12', 'U1'])]
+    elif pattern == 'descendant_extra':
+        where = ['U', 'U1'] if rnd.random() < 0.6 else ['T', rnd.choice(['T1', 'T2'])]
+    elif pattern == 'uniontargets':
+        where = rnd.choice([['T1', 'U'], ['T2', 'U1', 'V'], ['T2', 'U1'], ['Named', 'V']])
     elif pattern == 'linktarget':
         where = ['U']
     elif pattern == 'diamond':
@@ -199,6 +232,8 @@ def gen_placement(rnd, pid, pattern=None, stdobj=False):
         where = [rnd.choice(['T', 'U', 'R'])]
     elif pattern == 'leafonly':
         where = [rnd.choice(['V', 'W', 'T12', 'U1'])]
+    elif pattern == 'typeof':
+        where = [rnd.choice(['T', 'U', 'Named'])]
     else:
         where = rnd.sample(TYPES, rnd.randint(2, 4))
     counter, markers, pols, ddl = [1], {}, {}, []
@@ -228,7 +263,7 @@ def gen_placement(rnd, pid, pattern=None, stdobj=False):
                     sel.append([p['allow'], p['cond']])
         if any_pol:
             spec.append([TNUM[t], sel])
-    return {'pid': pid, 'pattern': pattern + ('+stdobj' if stdobj else ''), 'ddl': '\n'.join(ddl),
+    return {'pid': pid, 'pattern': pattern + ('+stdobj' if stdobj is True else ''), 'ddl': '\n'.join(ddl),
             'markers': markers, 'spec': spec, 'pols': pols, 'own': sorted(pols)}
 
 
@@ -556,6 +591,11 @@ SEED_QUERIES = [
     'select (select R limit 1).ms', 'select array_agg(T)', 'select to_json("1")', 'select 1',
     'select <str>count(T)', 'select DISTINCT T.u', 'select R.ms@lp' if False else 'select R.ms_lp@lp',
     'select T { rback: {name} }', 'select U { ts := .<u[is T] { name } }',
+    'select R.items', 'select R { items: {name} }', 'select R.items[is U1]', 'select count(R.items)',
+    'select R { tu: {name}, items: {name} } filter exists .tu', 'select T2.<items[is R]',
+    'select (count(U), (global g_t).name)', 'select ((global g_t).name, count(U))', 'select (U, AT)',
+    'select (AT, U)', 'select (count(T), count(global g_ts))', 'select (count(global g_ts), count(U))',
+    'select (AR, T)', 'select (T, AR)', 'select U1', 'select U[is U1]', 'select T.u[is U1]', 'select U1.<u[is T]',
     'select sum(T.num)', 'select T.num', 'select T { isT1 := T is T1 }', 'select enumerate(T)',
     'select (for t in T union t.u) { name }', 'select T filter .u in U', 'select T filter .u not in U',
     'select R.ms intersect T1', 'select T except T1',
